@@ -105,7 +105,9 @@ class LI:
 
 # ------------------------------------------------------------------ formulas over atoms
 class Atom:
-    """kinds: 'nz' (lv): some lane output non-zero; 'top' (lv, fn): fn(highest set bit position|None) ; 'cmp' (lv, kh, pred).
+    """kinds: 'nz' (lv): some lane output non-zero; 'top' (lv, fn): fn(highest set bit position|None) ; 'cmp' (lv, kh, pred);
+    'ne2' (lv, arg=other lv): the two transducers differ on some lane (each may have its own carry chain);
+    'carryat' (lv=None, arg=chain, arg2=lane): carry INTO that lane of the chain; 'cfinal' (lv=None, arg=chain): carry out of the last lane.
     'nz' and 'cmp' atoms over equal transducers are the same object (so that a path condition a & !a is recognised)."""
     _pool = {}
 
@@ -229,10 +231,21 @@ def _width(ty):
 
 # ------------------------------------------------------------------ the evaluator
 class Path:
-    __slots__ = ("cond", "ret", "stores")
+    """one way through a function: condition (formula over atoms), returned value, final memory, and the input lanes still allowed
+    (branches on a single input digit refine `allowed` in addition to being recorded in `cond`)"""
+    __slots__ = ("cond", "ret", "mem", "allowed")
 
-    def __init__(self, cond, ret, stores):
-        self.cond, self.ret, self.stores = cond, ret, stores
+    def __init__(self, cond, ret, mem, allowed):
+        self.cond, self.ret, self.mem, self.allowed = cond, ret, mem, allowed
+
+    def stored(self, argk, off=0):
+        """value stored at byte offset `off` of the object pointer argument `argk` points to (None if never stored)"""
+        e = self.mem.get((("arg", argk), off))
+        return None if e is None else e[0]
+
+
+def argptr(k):
+    return ("ptr", ("arg", k), 0)
 
 
 class Evaluator:
@@ -244,41 +257,118 @@ class Evaluator:
         self.max_steps = max_steps
         self.steps = 0
         self.lift = {}     # memo of lane-local liftings
+        self._loc = 0
+        self.models = {}   # callee name -> fn(evaluator, args, allowed, inst) -> value: the callee's DOCUMENTED meaning (verified separately)
 
-    # -- values: int (python int, with width tracked by instruction type) | LV | LI | BI | ("ptr", ...) --
-    def norm(self, v):
+    # -- values: int | LV | LI | BI | ("ptr", base, byte offset) | ("gptr", operand) | ("gep", ...) | tuple aggregate ("agg", [...]) --
+    def norm(self, v, allowed):
         if isinstance(v, LV):
-            c = v.concrete(self.allowed)
+            c = v.concrete(allowed)
             if c is not None:
                 return c
         if isinstance(v, BI) and v.f[0] == "c":
             return 1 if v.f[1] else 0
         return v
 
-    def run(self, fname, args, depth=0):
+    # -- type sizes (bytes) --
+    def tsize(self, ty):
+        ty = ty.strip()
+        if ty.endswith("*"):
+            return 8
+        if ty.startswith("i") and ty[1:].isdigit():
+            return (int(ty[1:]) + 7) // 8
+        if ty == "double":
+            return 8
+        if ty == "float":
+            return 4
+        a = ir.array_extent(ty)
+        if a:
+            return a[0] * self.tsize(a[1])
+        if ty.startswith("%struct.") or ty.startswith("%union."):
+            info = self.m.structs.get(ty[1:])
+            if info is None:
+                raise Shape("size of unknown type " + ty)
+            return info["size"]
+        raise Shape("size of type " + ty)
+
+    def gep_offset(self, srcty, idx, inst):
+        off = idx[0] * self.tsize(srcty)
+        ty = srcty
+        for k in idx[1:]:
+            if ty.startswith("%struct.") or ty.startswith("%union."):
+                info = self.m.structs.get(ty[1:])
+                if info is None or not (0 <= k < len(info["fields"])):
+                    raise Shape("struct field %d of %s at %s" % (k, ty, inst.where()))
+                off += info["fields"][k][1]
+                ty = info["fields"][k][0]
+            else:
+                a = ir.array_extent(ty)
+                if not a:
+                    raise Shape("getelementptr into %s at %s" % (ty, inst.where()))
+                off += k * self.tsize(a[1])
+                ty = a[1]
+        return off
+
+    # -- memory: {(base, byte offset): (value, size)} --
+    def mem_store(self, mem, base, off, v, size, inst):
+        m2 = dict(mem)
+        for (b, o), (ov, osz) in list(mem.items()):
+            if b != base or o + osz <= off or off + size <= o:
+                continue
+            if o >= off and o + osz <= off + size:
+                del m2[(b, o)]
+                continue
+            if not isinstance(ov, int):
+                raise Shape("partial overwrite of an index-derived value in memory at %s" % inst.where())
+            del m2[(b, o)]
+            for k in range(osz):
+                if not (off <= o + k < off + size):
+                    m2[(b, o + k)] = ((ov >> (8 * k)) & 0xFF, 1)
+        m2[(base, off)] = (v, size)
+        return m2
+
+    def mem_load(self, mem, base, off, size, inst):
+        e = mem.get((base, off))
+        if e is not None and e[1] == size:
+            return e[0]
+        # assemble from / extract out of integer entries
+        out = 0
+        for k in range(size):
+            got = None
+            for (b, o), (ov, osz) in mem.items():
+                if b == base and o <= off + k < o + osz:
+                    if not isinstance(ov, int):
+                        raise Shape("partial load of an index-derived value from memory at %s" % inst.where())
+                    got = (ov >> (8 * (off + k - o))) & 0xFF
+            if got is None:
+                raise Shape("load of memory that was never written at %s" % inst.where())
+            out |= got << (8 * k)
+        return out
+
+    def run(self, fname, args, depth=0, mem=None, allowed=None, cond=None):
         """-> list of Path; args: list of values"""
         if depth > 8:
             raise Shape("call depth > 8 at %s" % fname)
         f = self.m.fn(fname)
         if len(args) != len(f.args):
             raise Shape("%s: arity" % fname)
+        allowed = allowed if allowed is not None else self.allowed
         out = []
-        work = [(0, None, {}, F_const(True), {})]   # block, pred block, env, cond, stores
+        work = [(0, None, {}, cond if cond is not None else F_const(True), mem or {}, allowed)]   # block, pred, env, cond, mem, allowed
         while work:
-            bidx, pred, env, cond, stores = work.pop()
+            bidx, pred, env, cond, mem, alw = work.pop()
             b = f.blocks[bidx]
-            # phis: parallel copy
             newv = {}
             for p in b.phis():
                 for o, inc in zip(p.ops, p.d["inc"]):
                     if inc == pred:
-                        newv[p.id] = self.val(f, o, env, args, _width(p.type) if p.type.startswith("i") else None)
+                        newv[p.id] = self.val(f, o, env, args)
                         break
                 else:
                     raise Shape("%s: phi without matching incoming edge" % fname)
             env = dict(env)
             env.update(newv)
-            pend = [(env, cond, stores)]
+            pend = [(env, cond, mem, alw)]
             for inst in b.insts:
                 if inst.op == "phi":
                     continue
@@ -288,32 +378,37 @@ class Evaluator:
                 if inst is b.term:
                     break
                 nxt = []
-                for (e, c, s) in pend:
-                    nxt += self.step(f, inst, e, c, s, args, depth)
+                for st in pend:
+                    nxt += self.step(f, inst, st, args, depth)
                 pend = nxt
                 if len(pend) + len(work) + len(out) > self.max_paths:
                     raise Shape("%s: more than %d paths" % (fname, self.max_paths))
             t = b.term
-            for (e, c, s) in pend:
+            for (e, c, s, al) in pend:
                 if t.op == "ret":
-                    rv = self.val(f, t.ops[0], e, args, None) if t.ops else None
-                    out.append(Path(c, rv, s))
+                    rv = self.norm(self.val(f, t.ops[0], e, args), al) if t.ops else None
+                    out.append(Path(c, rv, s, al))
                 elif t.op == "br":
                     if len(t.ops) == 1:
-                        work.append((t.ops[0][1], bidx, e, c, s))
+                        work.append((t.ops[0][1], bidx, e, c, s, al))
                     else:
-                        cv = self.norm(self.val(f, t.ops[0], e, args, 1))
+                        cv = self.norm(self.val(f, t.ops[0], e, args), al)
                         tb, fb = t.succs()
                         if isinstance(cv, int):
-                            work.append((tb if cv & 1 else fb, bidx, e, c, s))
+                            work.append((tb if cv & 1 else fb, bidx, e, c, s, al))
                         elif isinstance(cv, BI):
-                            for dest, cc in ((tb, F_and(c, cv.f)), (fb, F_and(c, F_not(cv.f)))):
-                                if not f_contradictory(cc):
-                                    work.append((dest, bidx, e, cc, s))
+                            for dest, lit in ((tb, cv.f), (fb, F_not(cv.f))):
+                                cc = F_and(c, lit)
+                                if f_contradictory(cc):
+                                    continue
+                                al2 = self.refine(al, lit)
+                                if al2 is None:
+                                    continue
+                                work.append((dest, bidx, e, cc, s, al2))
                         else:
                             raise Shape("%s: branch on an uninterpreted value at %s" % (fname, t.where()))
                 elif t.op == "switch":
-                    cv = self.norm(self.val(f, t.ops[0], e, args, None))
+                    cv = self.norm(self.val(f, t.ops[0], e, args), al)
                     if not isinstance(cv, int):
                         raise Shape("%s: switch on a value that depends on the index at %s" % (fname, t.where()))
                     w = _width(self._type_of(f, t.ops[0]))
@@ -321,7 +416,7 @@ class Evaluator:
                     for cvv, d in t.d["cases"]:
                         if (cvv & ((1 << w) - 1)) == cv:
                             dest = d
-                    work.append((dest, bidx, e, c, s))
+                    work.append((dest, bidx, e, c, s, al))
                 elif t.op == "unreachable":
                     pass
                 else:
@@ -329,6 +424,30 @@ class Evaluator:
                 if len(work) + len(out) > self.max_paths:
                     raise Shape("%s: more than %d paths" % (fname, self.max_paths))
         return out
+
+    def refine(self, allowed, lit):
+        """a branch literal over ONE input lane (no carry) restricts the allowed values of that lane; None = infeasible"""
+        neg = lit[0] == "n"
+        a = lit[1] if neg else lit
+        if a[0] != "a" or a[1].kind != "nz":
+            return allowed
+        lv = a[1].lv
+        if lv.chain is not None and lv.depends_on_carry():
+            return allowed
+        nzl = [j for j in range(NL) if any(lv.tab[j][x * 2] for x in allowed[j])]
+        if len(nzl) > 1:
+            return allowed
+        if not nzl:
+            return None if not neg else allowed
+        j = nzl[0]
+        keep = [x for x in allowed[j] if (lv.tab[j][x * 2] != 0) != neg]
+        if not keep:
+            return None
+        if len(keep) == len(allowed[j]):
+            return allowed
+        al = list(allowed)
+        al[j] = keep
+        return al
 
     def _type_of(self, f, o):
         if o[0] == "i":
@@ -339,7 +458,7 @@ class Evaluator:
             return "i%d" % o[2]
         raise Shape("type of %r" % (o,))
 
-    def val(self, f, o, env, args, width):
+    def val(self, f, o, env, args):
         k = o[0]
         if k == "c":
             return o[1] & ((1 << o[2]) - 1)
@@ -353,17 +472,22 @@ class Evaluator:
             return ("gptr", o)
         if k in ("undef", "poison"):
             return 0
+        if k == "agg":
+            return ("agg", [self.val(f, x, env, args) for x in o[1]])
+        if k == "null":
+            return 0
         raise Shape("operand kind %r" % (k,))
 
-    # -- one instruction; returns list of (env, cond, stores) --
-    def step(self, f, inst, env, cond, stores, args, depth):
+    # -- one instruction; returns list of (env, cond, mem, allowed) --
+    def step(self, f, inst, st, args, depth):
+        env, cond, mem, al = st
         op = inst.op
         if op == "call":
             cal = inst.callee or ""
             if cal.startswith("llvm.dbg") or cal.startswith("llvm.lifetime") or cal in ("llvm.assume", "llvm.experimental.noalias.scope.decl"):
-                return [(env, cond, stores)]
+                return [st]
             if cal.startswith("llvm.ctlz."):
-                a = self.norm(self.val(f, inst.ops[0], env, args, None))
+                a = self.norm(self.val(f, inst.ops[0], env, args), al)
                 w = _width(inst.type)
                 if isinstance(a, int):
                     r = w - a.bit_length()
@@ -371,39 +495,39 @@ class Evaluator:
                     r = LI(a, (lambda p, w=w: w if p is None else w - 1 - p), w)
                 else:
                     raise Shape("ctlz of an uninterpreted value")
-                return [(self._set(env, inst, r), cond, stores)]
+                return [(self._set(env, inst, r, al), cond, mem, al)]
             fn = self.m.functions.get(cal)
             if fn is None or fn.decl or not fn.has_body:
                 raise Shape("%s calls %s, which the lane evaluator cannot summarise" % (f.name, cal or "<indirect>"))
-            cargs = [self.norm(self.val(f, o, env, args, None)) for o in inst.ops[:len(fn.args)]]
-            r = self.lift_call(cal, fn, cargs, inst, depth)
+            cargs = [self.norm(self.val(f, o, env, args), al) for o in inst.ops[:len(fn.args)]]
+            if cal in self.models:
+                return [(self._set(env, inst, self.models[cal](self, cargs, al, inst), al), cond, mem, al)]
+            r = self.lift_call(cal, fn, cargs, inst, depth, al)
             if r is not None:
-                return [(self._set(env, inst, r), cond, stores)]
+                return [(self._set(env, inst, r, al), cond, mem, al)]
             res = []
-            for p in self.run(cal, cargs, depth + 1):
-                if p.stores:
-                    raise Shape("callee %s stores through a pointer" % cal)
-                cc = F_and(cond, p.cond)
-                if not f_contradictory(cc):
-                    res.append((self._set(env, inst, p.ret), cc, stores))
+            for p in self.run(cal, cargs, depth + 1, mem, al, cond):
+                res.append((self._set(env, inst, p.ret, p.allowed) if not inst.type == "void" else env, p.cond, p.mem, p.allowed))
             return res
         if op == "store":
-            v = self.norm(self.val(f, inst.ops[0], env, args, None))
-            ptr = self.val(f, inst.ops[1], env, args, None)
-            if isinstance(ptr, tuple) and ptr[0] == "argptr":
-                s = dict(stores)
-                s[ptr[1:]] = v
-                return [(env, cond, s)]
+            v = self.norm(self.val(f, inst.ops[0], env, args), al)
+            ptr = self.val(f, inst.ops[1], env, args)
+            if isinstance(ptr, tuple) and ptr[0] == "ptr":
+                ty = self._type_of(f, inst.ops[0])
+                return [(env, cond, self.mem_store(mem, ptr[1], ptr[2], v, self.tsize(ty), inst), al)]
             raise Shape("%s: store to memory the lane evaluator does not model at %s" % (f.name, inst.where()))
-        r = self.compute(f, inst, env, args, stores)
-        return [(self._set(env, inst, r), cond, stores)]
+        if op == "alloca":
+            self._loc += 1
+            return [(self._set(env, inst, ("ptr", ("loc", f.name, inst.id, self._loc), 0), al), cond, mem, al)]
+        r = self.compute(f, inst, env, args, mem, al)
+        return [(self._set(env, inst, r, al), cond, mem, al)]
 
-    def _set(self, env, inst, v):
+    def _set(self, env, inst, v, al):
         e = dict(env)
-        e[inst.id] = self.norm(v)
+        e[inst.id] = self.norm(v, al)
         return e
 
-    def lift_call(self, cal, fn, cargs, inst, depth):
+    def lift_call(self, cal, fn, cargs, inst, depth, al):
         """lane-local lifting: a callee applied to a value confined to ONE lane (a digit, at bits 0..2 of the value) and otherwise
         constant arguments is evaluated once per possible digit value; if every result is again a digit, the call is a lane table."""
         lvs = [k for k, a in enumerate(cargs) if isinstance(a, LV)]
@@ -422,10 +546,10 @@ class Evaluator:
                 cc = list(cargs)
                 cc[lvs[0]] = v
                 try:
-                    ps = self.run(cal, cc, depth + 1)
+                    ps = self.run(cal, cc, depth + 1, {}, al)
                 except Shape:
                     return None
-                if len(ps) != 1 or not isinstance(ps[0].ret, int) or ps[0].stores or not (0 <= ps[0].ret <= 7):
+                if len(ps) != 1 or not isinstance(ps[0].ret, int) or ps[0].mem or not (0 <= ps[0].ret <= 7):
                     return None
                 memo[v] = ps[0].ret
             self.lift[key] = memo
@@ -435,13 +559,13 @@ class Evaluator:
         r = LV(w, a.off, tab, a.chain)
         return r.masked(r.window())
 
-    def compute(self, f, inst, env, args, stores):
+    def compute(self, f, inst, env, args, mem, al):
         op = inst.op
-        g = lambda k: self.norm(self.val(f, inst.ops[k], env, args, None))
+        g = lambda k: self.norm(self.val(f, inst.ops[k], env, args), al)
         if op in ("and", "or", "xor", "add", "sub", "mul", "shl", "lshr", "ashr", "udiv", "sdiv", "urem", "srem"):
             w = _width(inst.type)
             a, b = g(0), g(1)
-            return self.binop(op, a, b, w, inst)
+            return self.binop(op, a, b, w, inst, al)
         if op == "icmp":
             a, b = g(0), g(1)
             w = _width(self._type_of(f, inst.ops[0])) if not self._type_of(f, inst.ops[0]).endswith("*") else 64
@@ -484,25 +608,43 @@ class Evaluator:
                     return BI(F_or(F_and(c.f, fa), F_and(F_not(c.f), fb)), w)
             raise Shape("select between index-dependent values on an index-dependent condition at %s" % inst.where())
         if op == "getelementptr":
-            base = self.val(f, inst.ops[0], env, args, None)
+            base = self.val(f, inst.ops[0], env, args)
             idx = [g(k) for k in range(1, len(inst.ops))]
+            if not all(isinstance(x, int) for x in idx):
+                raise Shape("subscript depends on the index (no case split fixes it) at %s" % inst.where())
+            ws = [_width(self._type_of(f, o)) for o in inst.ops[1:]]
+            idx = [_s(x, w) for x, w in zip(idx, ws)]
             if isinstance(base, tuple) and base[0] == "gptr":
-                if not all(isinstance(x, int) for x in idx):
-                    raise Shape("table subscript depends on the index (no case split fixes it) at %s" % inst.where())
-                ws = [_width(self._type_of(f, o)) for o in inst.ops[1:]]
-                return ("gep", base[1], [(_s(x, w)) for x, w in zip(idx, ws)], inst.d.get("srcty", ""))
-            if isinstance(base, tuple) and base[0] == "argptr":
-                return ("argptr", base[1], base[2] + tuple(idx))
+                return ("gep", base[1], idx, inst.d.get("srcty", ""))
+            if isinstance(base, tuple) and base[0] == "ptr":
+                return ("ptr", base[1], base[2] + self.gep_offset(inst.d.get("srcty", ""), idx, inst))
             raise Shape("getelementptr on unmodelled base at %s" % inst.where())
         if op == "bitcast":
-            return self.val(f, inst.ops[0], env, args, None)
+            return self.val(f, inst.ops[0], env, args)
         if op == "load":
-            p = self.val(f, inst.ops[0], env, args, None)
+            p = self.val(f, inst.ops[0], env, args)
             if isinstance(p, tuple) and p[0] == "gep":
                 return self.load_const(p, inst)
-            if isinstance(p, tuple) and p[0] == "argptr" and p[1:] in stores:
-                return stores[p[1:]]
+            if isinstance(p, tuple) and p[0] == "ptr":
+                return self.mem_load(mem, p[1], p[2], self.tsize(inst.type), inst)
             raise Shape("load from memory the lane evaluator does not model at %s" % inst.where())
+        if op == "extractvalue":
+            a = self.val(f, inst.ops[0], env, args)
+            for k in inst.d.get("idx", []):
+                if not (isinstance(a, tuple) and a[0] == "agg"):
+                    raise Shape("extractvalue of a non-aggregate at %s" % inst.where())
+                a = a[1][k]
+            return a
+        if op == "insertvalue":
+            a = self.val(f, inst.ops[0], env, args)
+            v = g(1)
+            idx = inst.d.get("idx", [])
+            if len(idx) != 1:
+                raise Shape("nested insertvalue at %s" % inst.where())
+            n_ = len(ir._split_types(inst.type.strip().strip("{}")))
+            items = list(a[1]) if isinstance(a, tuple) and a[0] == "agg" else [0] * n_
+            items[idx[0]] = v
+            return ("agg", items)
         if op == "freeze":
             return g(0)
         raise Shape("instruction %s at %s" % (op, inst.where()))
@@ -539,7 +681,7 @@ class Evaluator:
             return v.f
         return None
 
-    def binop(self, op, a, b, w, inst):
+    def binop(self, op, a, b, w, inst, al=None):
         mask = (1 << w) - 1
         if isinstance(a, int) and isinstance(b, int):
             return self.cbin(op, a, b, w)
@@ -604,6 +746,20 @@ class Evaluator:
                             s = (av - kl[j] - c) if lv_first else (kl[j] - av - c)
                             t.append(s & 7); co.append(1 if s < 0 else 0)
                 tab.append(tuple(t)); cout.append(tuple(co))
+            # carries that are determined under the allowed input lanes leave no chain behind
+            if al is not None:
+                cin, known = 0, True
+                spec = []
+                for j in range(NL):
+                    spec.append(tuple(tab[j][x * 2 + cin] for x in range(8) for _c in (0, 1)))
+                    outs = {cout[j][x * 2 + cin] for x in al[j]}
+                    if len(outs) != 1:
+                        known = False
+                        break
+                    cin = outs.pop()
+                if known:
+                    r = LV(w, 0, spec)
+                    return r.masked(r.window())
             r = LV(w, 0, tab, Chain(0, cout))
             return r.masked(r.window())
         raise Shape("%s on an index-derived value at %s" % (op, inst.where()))
@@ -671,7 +827,6 @@ class Evaluator:
             raise Shape("signed order on an index-derived value whose sign may be set at %s" % inst.where())
         if isinstance(a, LV) and isinstance(b, LV) and pred in ("eq", "ne"):
             x = self.binop("xor", a, b, w, inst)
-            x = self.norm(x)
             if isinstance(x, int):
                 return 1 if (x == 0) == (pred == "eq") else 0
             f_ = F_atom(Atom("nz", x))
@@ -698,6 +853,12 @@ def f_subst(f, sub):
 
 def _last_lane(a, allowed):
     """last lane at which the atom's state can still change"""
+    if a.kind == "ne2":
+        return NL - 1
+    if a.kind == "carryat":
+        return a.arg2
+    if a.kind == "cfinal":
+        return NL - 1
     last = -1
     for j in range(NL):
         t = a.lv.tab[j]
@@ -710,7 +871,7 @@ def _last_lane(a, allowed):
 
 
 def _atom_value(a, s):
-    if a.kind == "nz":
+    if a.kind in ("nz", "ne2", "carryat", "cfinal"):
         return bool(s)
     if a.kind == "top":
         return bool(a.arg(None if s is None else s - a.lv.off))
@@ -727,15 +888,17 @@ def decide(allowed, formulas, spec, max_states=200000):
         f_atoms(formulas[n_], atoms)
     chains = []
     for a in atoms:
-        if a.lv.chain is not None and a.lv.chain not in chains:
-            chains.append(a.lv.chain)
+        for ch in ((a.lv.chain if a.lv is not None else None), (a.arg.chain if a.kind == "ne2" else None), (a.arg if a.kind in ("carryat", "cfinal") else None)):
+            if ch is not None and ch not in chains:
+                chains.append(ch)
     cidx = {id(c): k for k, c in enumerate(chains)}
-    a_chain = [cidx.get(id(a.lv.chain), -1) for a in atoms]
+    a_chain = [cidx.get(id(a.lv.chain), -1) if a.lv is not None else -1 for a in atoms]
+    a_chain2 = [cidx.get(id(a.arg.chain), -1) if a.kind == "ne2" else (cidx[id(a.arg)] if a.kind in ("carryat", "cfinal") else -1) for a in atoms]
     last = [_last_lane(a, allowed) for a in atoms]
     RET = "retired"
 
     def a_init(a):
-        if a.kind == "nz": return False
+        if a.kind in ("nz", "ne2", "carryat", "cfinal"): return False
         if a.kind == "top": return None
         return 0    # cmp: 0 eq, -1 lt, 1 gt
 
@@ -760,8 +923,36 @@ def decide(allowed, formulas, spec, max_states=200000):
                     if s is RET:
                         nast.append(s)
                         continue
+                    if a.kind == "carryat":
+                        if j < a.arg2:
+                            nast.append(s)
+                        else:
+                            if sub is None:
+                                sub = {}
+                            sub[a] = bool(car[a_chain2[k]])
+                            nast.append(RET)
+                        continue
+                    if a.kind == "cfinal":
+                        if j == NL - 1:
+                            if sub is None:
+                                sub = {}
+                            sub[a] = bool(ncar[a_chain2[k]])
+                            nast.append(RET)
+                        else:
+                            nast.append(s)
+                        continue
                     c = car[a_chain[k]] if a_chain[k] >= 0 else 0
                     v = a.lv.tab[j][x * 2 + c]
+                    if a.kind == "ne2":
+                        c2 = car[a_chain2[k]] if a_chain2[k] >= 0 else 0
+                        s = s or v != a.arg.tab[j][x * 2 + c2]
+                        if s or j == NL - 1:
+                            if sub is None:
+                                sub = {}
+                            sub[a] = bool(s)
+                            s = RET
+                        nast.append(s)
+                        continue
                     if a.kind == "nz":
                         s = s or v != 0
                     elif a.kind == "top":
